@@ -80,6 +80,7 @@ func main() {
 		{Name: "hard-multi-denom-liquidation", Cfg: cfg, Script: history.ScenarioHardMultiDenom(), Blocks: 25, MaxTxs: 5, PriceEvery: 6},
 		{Name: "gov-tally-bkava", Cfg: cfg, Script: history.ScenarioGovTallyBkava(cfg.GovVotingPeriod), Blocks: 20, MaxTxs: 5, PriceEvery: 6},
 		{Name: "committee-param-change", Cfg: cfg, Script: history.ScenarioCommitteeParamChange(), Blocks: 15, MaxTxs: 5, PriceEvery: 6},
+		{Name: "restart-basic-invalid-tx", Cfg: cfg, Script: history.ScenarioBasicInvalidAfterRestart()},
 	}
 	nRandom := c.Budget(3, 12)
 	blocks := 110
@@ -151,6 +152,9 @@ func runPlan(out *c.Out, plan history.Plan, k int) {
 	if len(h.Blocks) > 2 {
 		restartAt = 1 + int64(c.NewRng(plan.Seed^0xabcdef).Intn(len(h.Blocks)/2))
 	}
+	if plan.Name == "restart-basic-invalid-tx" {
+		restartAt = 2
+	}
 	wg.Add(1)
 	go func() {
 		defer wg.Done()
@@ -163,14 +167,38 @@ func runPlan(out *c.Out, plan history.Plan, k int) {
 	}
 	out.Note(fmt.Sprintf("restart-height:%s:%d", plan.Name, restartAt))
 
+	// first divergence of every replica: later heights of that replica are consequences and are not compared
+	divergedAt := make([]int64, len(reps))
+	for i, r := range reps {
+		if d := history.Compare(r.name, h.Results, r.res); d != nil {
+			divergedAt[i] = d.Height
+		}
+	}
+	// cause of a divergence inside a block: a tx rejected before the ante handler (ValidateBasic) whose reported
+	// gas differs — baseapp reports the gas accumulated on the block context, see findings/C01-restart-gas.md
+	causeAt := func(hi int) string {
+		for ti := range h.Results[hi].Txs {
+			if ti < len(h.Blocks[hi].BasicInvalid) && h.Blocks[hi].BasicInvalid[ti] {
+				for _, r := range reps {
+					if hi < len(r.res) && ti < len(r.res[hi].Txs) && r.res[hi].Txs[ti].GasUsed != h.Results[hi].Txs[ti].GasUsed {
+						return "validate-basic-gas"
+					}
+				}
+			}
+		}
+		return "-"
+	}
 	// per-height and per-tx case lines (the driver evaluates "all replicas agree" on them)
 	for hi, lead := range h.Results {
 		col := func(get func(d history.Digests) string) string {
 			xs := []string{get(lead.Digests)}
-			for _, r := range reps {
-				if hi < len(r.res) {
+			for i, r := range reps {
+				switch {
+				case divergedAt[i] != 0 && lead.Height > divergedAt[i]:
+					xs = append(xs, get(lead.Digests)) // already reported at its first divergence
+				case hi < len(r.res):
 					xs = append(xs, get(r.res[hi].Digests))
-				} else {
+				default:
 					xs = append(xs, "missing")
 				}
 			}
@@ -187,29 +215,40 @@ func runPlan(out *c.Out, plan history.Plan, k int) {
 			bucket = "1-2"
 		}
 		sig := fmt.Sprintf("%s|txs=%s|panic=%v|restartBefore=%v", planClass(plan.Name), bucket, lead.Panic != "", lead.Height > restartAt)
-		out.Case(sig, "c01.height", plan.Name, fmt.Sprint(lead.Height), fmt.Sprint(len(reps)+1),
+		out.Case(sig, "c01.height", plan.Name, fmt.Sprint(lead.Height), fmt.Sprint(len(reps)+1), causeAt(hi),
 			col(func(d history.Digests) string { return d.AppHash }),
-			col(func(d history.Digests) string { return d.TxResult }),
 			col(func(d history.Digests) string { return d.BBEvents }),
 			col(func(d history.Digests) string { return d.EBEvents }))
 		for ti, tx := range lead.Txs {
 			xs := []string{fmt.Sprintf("%d/%d", tx.Code, tx.GasUsed)}
 			ls := []string{logDigest(tx.Log)}
-			for _, r := range reps {
+			es := []string{history.EventsDigest(tx.Events) + fmt.Sprintf("/%x", tx.Data)}
+			for i, r := range reps {
+				if divergedAt[i] != 0 && lead.Height > divergedAt[i] {
+					xs, ls, es = append(xs, xs[0]), append(ls, ls[0]), append(es, es[0])
+					continue
+				}
 				if hi < len(r.res) && ti < len(r.res[hi].Txs) {
-					xs = append(xs, fmt.Sprintf("%d/%d", r.res[hi].Txs[ti].Code, r.res[hi].Txs[ti].GasUsed))
-					ls = append(ls, logDigest(r.res[hi].Txs[ti].Log))
+					rt := r.res[hi].Txs[ti]
+					xs = append(xs, fmt.Sprintf("%d/%d", rt.Code, rt.GasUsed))
+					ls = append(ls, logDigest(rt.Log))
+					es = append(es, history.EventsDigest(rt.Events)+fmt.Sprintf("/%x", rt.Data))
 				} else {
 					xs = append(xs, "missing")
 					ls = append(ls, "missing")
+					es = append(es, "missing")
 				}
+			}
+			stage := "deliver"
+			if ti < len(h.Blocks[hi].BasicInvalid) && h.Blocks[hi].BasicInvalid[ti] {
+				stage = "validate-basic" // rejected by baseapp before the ante handler installs the tx gas meter
 			}
 			kind := "tx"
 			if ti < len(h.Blocks[hi].Desc) {
 				kind = strings.SplitN(h.Blocks[hi].Desc[ti], " ", 2)[0]
 			}
 			code := fmt.Sprintf("%s/%d", tx.Codespace, tx.Code)
-			out.Case(kind+"|"+code, "c01.tx", plan.Name, fmt.Sprint(lead.Height), fmt.Sprint(ti), kind, code, strings.Join(xs, ","), strings.Join(ls, ","))
+			out.Case(kind+"|"+code+"|"+stage, "c01.tx", plan.Name, fmt.Sprint(lead.Height), fmt.Sprint(ti), kind, code, stage, strings.Join(xs, ","), strings.Join(es, ","), strings.Join(ls, ","))
 		}
 	}
 	// divergences: violation + replay information
@@ -229,13 +268,20 @@ func runPlan(out *c.Out, plan history.Plan, k int) {
 							break
 						}
 						if a.Code != b.Code || a.GasUsed != b.GasUsed {
-							detail = fmt.Sprintf(" tx=%d leader=%d/%d replica=%d/%d", ti, a.Code, a.GasUsed, b.Code, b.GasUsed)
+							stage := "deliver"
+							if ti < len(h.Blocks[hi].BasicInvalid) && h.Blocks[hi].BasicInvalid[ti] {
+								stage = "validate-basic"
+							}
+							detail = fmt.Sprintf(" tx=%d stage=%s leader=%d/%d replica=%d/%d", ti, stage, a.Code, a.GasUsed, b.Code, b.GasUsed)
 							break
 						}
 					}
 				}
 			}
 			desc += detail
+			if hi := int(d.Height) - 1; hi >= 0 && hi < len(h.Results) {
+				desc = "cause=" + causeAt(hi) + " " + desc
+			}
 			msg := fmt.Sprintf("C01 divergence at height %d what=%s plan=%s seed=%d replica=%s leader=%s replica-value=%s txs=[%s]",
 				d.Height, d.What, plan.Name, plan.Seed, d.Name, d.Leader, d.Replica, short(desc, 1200))
 			out.Violation(msg)
